@@ -25,10 +25,10 @@ def _int01(a, what):
 class A(Adapter):
     name = "robot_warehouse"
     lean = "robot_warehouse"
-    serves = {"C04", "C05", "C07", "C10", "C12"}
+    serves = {"C01", "C04", "C05", "C07", "C10", "C12"}
     terminate_on_invalid = False
     max_steps = 70
-    ops = ("state", "step", "judge", "instance")
+    ops = ("state", "step", "judge", "instance", "bounds")
 
     # ---------------------------------------------------------------- configurations
     def configs(self, tier):
